@@ -87,3 +87,49 @@ func VerifC13LookupV6Nss(r *Resolver, q middleware.Queryer, ctx context.Context,
 	servers := &authority.Servers{Zone: zone}
 	r.lookupV6Nss(ctx, dns.Question{Name: zone, Qtype: dns.TypeNS, Qclass: dns.ClassINET}, servers, hostSet{}, set, true)
 }
+
+// ---- the per-address circuit breaker (accessors; VerifC13CBShift emulates a
+// clock advance by moving every stored lastFailure into the past).
+
+// VerifC13CB is an opaque handle on a circuitBreaker.
+type VerifC13CB struct{ cb *circuitBreaker }
+
+// VerifC13NewCB builds a breaker without the background cleanup goroutine.
+func VerifC13NewCB() *VerifC13CB {
+	return &VerifC13CB{cb: &circuitBreaker{failures: make(map[string]*serverFailure)}}
+}
+
+// VerifC13CBOf exposes the breaker of a live resolver.
+func VerifC13CBOf(r *Resolver) *VerifC13CB { return &VerifC13CB{cb: r.circuitBreaker} }
+
+func (b *VerifC13CB) CanQuery(server string) bool { return b.cb.canQuery(server) }
+func (b *VerifC13CB) RecordFailure(server string) { b.cb.recordFailure(server) }
+func (b *VerifC13CB) RecordSuccess(server string) { b.cb.recordSuccess(server) }
+func (b *VerifC13CB) CleanupOnce(now int64)       { b.cb.cleanupOnce(now) }
+
+// Shift moves every stored lastFailure secs seconds into the past.
+func (b *VerifC13CB) Shift(secs int64) {
+	b.cb.mu.Lock()
+	defer b.cb.mu.Unlock()
+	for _, sf := range b.cb.failures {
+		sf.lastFailure.Store(sf.lastFailure.Load() - secs)
+	}
+}
+
+// State reads one address's record.
+func (b *VerifC13CB) State(server string) (count int32, disabled, exists bool) {
+	b.cb.mu.RLock()
+	defer b.cb.mu.RUnlock()
+	sf, ok := b.cb.failures[server]
+	if !ok {
+		return 0, false, false
+	}
+	return sf.count.Load(), sf.disabled.Load(), true
+}
+
+// Len is the number of tracked addresses.
+func (b *VerifC13CB) Len() int {
+	b.cb.mu.RLock()
+	defer b.cb.mu.RUnlock()
+	return len(b.cb.failures)
+}
